@@ -52,7 +52,7 @@ class BlackBoxInitialize(Initialize):
     def _define_initialize(self):
         n_amplitudes = len(self.params)
 
-        theta = 2 * np.arccos(np.abs(self.params))
+        theta = 2 * np.arccos(np.clip(np.abs(self.params), 0.0, 1.0))
         phi = -2 * np.angle(self.params)
 
         ury_gate = UCRYGate(list(theta))
